@@ -176,15 +176,16 @@ class Gen:
             return "(xor %s %s)" % (sub(), sub())
         if k < 0.88:
             return "(= %s %s)" % (sub(), sub())
-        if k < 0.95:
+        if k < 0.93:
             return "(ite %s %s %s)" % (sub(), sub(), sub())
         if r.random() < 0.5 and len(self.boolvars) >= 2:
-            # parallel let shadowing declared names: the second binding must see the OUTER first name
+            # parallel let shadowing declared names: the second binding must see the OUTER first name; the body uses both
             a, b = r.sample(self.boolvars, 2)
-            return "(let ((%s %s) (%s %s)) %s)" % (a, sub(), b, a, sub())
+            return "(let ((%s %s) (%s %s)) (%s %s %s %s))" % (a, sub(), b, a, r.choice(["and", "or", "xor", "="]), b, r.choice([a, "(not %s)" % a]), sub()) \
+                if r.random() < 0.7 else "(let ((%s %s) (%s %s)) %s)" % (a, sub(), b, a, sub())
         if r.random() < 0.5 and len(self.numvars) >= 2 and not self.dl:
             a, b = r.sample(self.numvars, 2)
-            return "(let ((%s %s) (%s (+ %s 1))) %s)" % (a, self.nterm(1), b, a, sub())
+            return "(let ((%s %s) (%s (+ %s 1))) (and (%s %s %s) %s))" % (a, self.nterm(1), b, a, r.choice(["<=", "<", "=", ">="]), b, self.nterm(1), sub())
         return "(let ((?l %s)) (or ?l %s))" % (sub(), sub())
 
 
